@@ -124,7 +124,7 @@ fn cli_pair(ctx: &Ctx, text: &str, tag: &str, rep: &mut Report) -> Option<(Strin
 }
 
 pub fn run(ctx: &Ctx) -> Report {
-    let n = ctx.size(60_000, 3_000_000) as usize;
+    let n = ctx.size(300_000, 6_000_000) as usize;
     let cli_n = ctx.size(120, 3_000) as usize;
     let batches = (n + 199) / 200;
     let cli_every = (n / cli_n.max(1)).max(1);
